@@ -307,6 +307,21 @@ func one(cs Case) (why string, cmds []string, nchanges int) {
 	for _, c := range plan.Changes {
 		cmds = append(cmds, c.Cmd)
 	}
+	// Planning must not consume its input: the CLI plans the same change objects twice (once to
+	// show the plan, once to apply it). The second plan is what gets executed, so it is the one
+	// that is replayed below; it must also be the plan that was shown.
+	plan2, err := d.plan.PlanChanges(context.Background(), "p", changes, opts...)
+	if err != nil {
+		return "replan-error: planning the same changes a second time fails: " + err.Error(), cmds, len(changes)
+	}
+	var cmds2 []string
+	for _, c := range plan2.Changes {
+		cmds2 = append(cmds2, c.Cmd)
+	}
+	if strings.Join(cmds, "\x00") != strings.Join(cmds2, "\x00") {
+		return fmt.Sprintf("replan-differs: planning the same change set twice gives different plans; second: %q", cmds2), cmds, len(changes)
+	}
+	plan = plan2
 	for leg, rp := range []func(*cat, []*migrate.Change, map[string]int, map[string]int) string{replaySource, replayText} {
 		c := catOf(build(cs.N, curP, curE))
 		created, dropped := map[string]int{}, map[string]int{}
